@@ -6,7 +6,7 @@ Driver for Model/TextCodec.lean:   lake env lean --run PgVerif/Drv/TextCodec.lea
   seq <hex>                                        -> err | list <c:hex>… | tuple <c:hex>… | scalar <c:hex>   (`fromList`; c = i | f, the item's class)
   tostr L|T <hex item>…                            -> <hex>          (`toStringSeq`)
   removeall <hex p> <hex s>                        -> <hex>          (`removeAll`)
-  mat csv|xl|aif <hex key>                         -> not | prop <hex> | keyerror   (`matRead` with the GENERATED prefix of that format)
+  mat csv|xl|aif <hex key>                         -> not | prop <hex> | keyerror   (`matReadBy` with the GENERATED prefix and strip mode of that format)
   aifkey <hex key>                                 -> <hex tag> <hex key read back>|~   (`aifKeyEnc` / `aifKeyDec` with the generated prefix and slice)
   stripq <hex>                                     -> <hex>          (`stripChar '\''`)
   xlcount row|param|col|falsy <cells>              -> <n>            (`xlCount` with the generated end test; cells: e empty, s '', t text, z 0, n number, T/F booleans)
@@ -79,6 +79,9 @@ def table : String → Option String
   | "xlMarkers" => some (rows [xlMarkers.map hx])
   | "aifModelWriter" => some (rows (aifModelWriter.map fun r => [hx r.1, hx r.2.1, (match r.2.2.1 with | some i => toString i | none => "~"), hx r.2.2.2]))
   | "aifPrefixes" => some (rows [[hx aifCustomWriterPrefix, hx aifParamWriterPrefix, hx aifMaterial.writer, hx csvMaterial.writer, hx xlMaterial.writer]])
+  | "csvStops" => some (rows [csvMetaStops.map hx])
+  | "aifDispatch" => some (rows [[hx aifDispatchData, hx aifDispatchModel]])
+  | "matStrip" => some (rows [[csvMaterial, xlMaterial, aifMaterial].map fun p => hx (match p.strip with | .replaceAll => "replaceAll" | .leading => "leading")])
   | "csvBranch" => some (rows (csvBranch.writer.map fun r => [toString r.1, hx r.2]))
   | "xlBranch" => some (rows (xlBranch.writer.map fun r => [toString r.1, hx r.2]))
   | "aifLoops" => some (rows (aifLoopsWriter.map fun r => [hx r.1, hx r.2.1] ++ r.2.2.map hx))
@@ -97,7 +100,7 @@ def step (ts : List String) : String :=
     | _, _ => "bad-op"
   | ["mat", f, h] =>
     match (if f == "csv" then some csvMaterial else if f == "xl" then some xlMaterial else if f == "aif" then some aifMaterial else none), unhex h with
-    | some p, some key => showMat (matRead p.startsWith.toList key)
+    | some p, some key => showMat (matReadBy p.strip p.startsWith.toList key)
     | _, _ => "bad-op"
   | ["aifkey", h] =>
     match unhex h with
